@@ -7,6 +7,7 @@ import (
 	"crypto/sha512"
 	"encoding/hex"
 	"fmt"
+	"math/big"
 	"os"
 	"strings"
 
@@ -52,6 +53,12 @@ func oracleServer() {
 			r := ripemd160.New()
 			r.Write(h[:])
 			out = r.Sum(nil)
+		case "probably_prime":
+			if new(big.Int).SetBytes(arg(1)).ProbablyPrime(30) {
+				out = []byte{1}
+			} else {
+				out = []byte{0}
+			}
 		case "base58":
 			out = []byte(base58.Encode(arg(1)))
 		default:
